@@ -138,7 +138,21 @@ func ruleStSingleWriter(c *Ctx, r *Reporter) {
 	for _, rfn := range []*ssa.Function{a.get, a.isDeleted, a.getIter, a.getRange} {
 		n := 0
 		ok := true
+		// the reader itself plus the Manager methods it hands the work to (extracted helpers), one level
+		body := []*ssa.Function{rfn}
 		AllInstrs(rfn, true, func(_ *ssa.Function, ins ssa.Instruction) {
+			if call, isCall := ins.(*ssa.Call); isCall {
+				if f := call.Call.StaticCallee(); f != nil && f != rfn && len(f.Blocks) > 0 && recvTypeName(f) == recvTypeName(rfn) && f != a.get && f != a.isDeleted && f != a.getIter && f != a.getRange {
+					body = append(body, f)
+				}
+			}
+		})
+		visit := func(f func(_ *ssa.Function, ins ssa.Instruction)) {
+			for _, b := range body {
+				AllInstrs(b, true, f)
+			}
+		}
+		visit(func(_ *ssa.Function, ins ssa.Instruction) {
 			hit := c.CallMay(ins, NewFnSet(a.poolGet, a.poolGetTables))
 			if u, isU := ins.(*ssa.UnOp); isU && u.Op == token.MUL && fieldVarOf(u.X) == a.sstables {
 				hit = true
@@ -153,7 +167,18 @@ func ruleStSingleWriter(c *Ctx, r *Reporter) {
 			}
 		})
 		if n == 0 {
-			r.Undecided(FnName(rfn), c.FnPos(rfn), "no layer access found")
+			// a reader that hands the work to one of its siblings (GetIterator = GetRangeIterator(nil, nil)): the sibling is checked
+			var to *ssa.Function
+			for _, call := range c.CallsIn(rfn, NewFnSet(a.get, a.isDeleted, a.getIter, a.getRange), false) {
+				if f := call.Common().StaticCallee(); f != nil && f != rfn {
+					to = f
+				}
+			}
+			if to != nil {
+				r.OK(FnName(rfn), c.FnPos(rfn), "no layer access of its own: delegates to "+FnName(to)+", which is checked")
+			} else {
+				r.Undecided(FnName(rfn), c.FnPos(rfn), "no layer access found")
+			}
 		} else if ok {
 			r.OK(FnName(rfn), c.FnPos(rfn), fmt.Sprintf("%d layer access(es) under storage.Manager.mu (shared)", n))
 		}
